@@ -667,6 +667,7 @@ func TestVerifC08(t *testing.T) {
 	}
 	if e.Tier == "thorough" {
 		c08Exhaustive(4, func(in c08In) { run("exhaustive-small", in) })
+		c08Exhaustive(5, func(in c08In) { run("exhaustive-small", in) })
 	}
 	for i := 0; i < e.N; i++ {
 		run("random-history", c08RandHistory(e.rng))
